@@ -66,57 +66,85 @@ def r1(db, rep):
                  "memory.store(eval(index), eval(src)) in that order; Load -> memory.load(eval(index), dst.bits()), "
                  "None -> ExecutorInvalidAddress, Some -> set_scalar(dst.name(), v); Branch -> SuccessorType::Branch of "
                  "the evaluated target; Intrinsic -> Err(UnhandledIntrinsic); Nop -> FallThrough; no arm writes state it "
-                 "must not")
-    hb = db.hir[EXEC]
+                 "must not (decided on MIR def-use terms: independent of how the arm binds intermediate values)")
+    from armlib import variants_of
+    body = db.mir[EXEC]
     rep.analysed(EXEC)
-    m = main_match(hb, OP)
-    rep.anchor(m is not None, "match over Operation in execute")
-    for a in arm_table(m):
-        names, _ = a.bindings()
-        cs = [last_seg(c) for c in a.callees()]
-        ctors = [last_seg(x.get("fn", {}).get("ctor_of", "") or x.get("res", {}).get("ctor_of", "") or "")
-                 for x in walk(a.body) if x.get("k") in ("Call", "Path")]
-        w = db.where(hb, a.line)
-        for v in a.variants:
-            v = last_seg(v)
-            key = "execute|%s" % v
-            if v == "Assign":
-                ok = "set_scalar" in cs and "symbolize_and_eval" in cs and "store" not in cs and "FallThrough" in ctors
-                # set_scalar(dst.name(), <value of src>)
-                for x in walk(a.body):
-                    if x.get("k") == "MethodCall" and x["name"] == "set_scalar":
-                        n0 = unq(x["args"][0])
-                        ok = ok and n0.get("k") == "MethodCall" and n0["name"] == "name" and \
-                            names.get(unq(n0["recv"]).get("res", {}).get("local")) == ("dst",)
-                r.decide(ok, key, w, "Assign must bind the evaluated source to dst.name() and fall through (callees %s)" % sorted(set(cs)))
-            elif v == "Store":
-                ok = "store" in cs and "set_scalar" not in cs and "FallThrough" in ctors
-                for x in walk(a.body):
-                    if x.get("k") == "MethodCall" and x["name"] == "store" and len(x["args"]) == 2:
-                        # address derives from `index`, value from `src`
-                        def origin(n):
-                            ls = {y["res"]["local"] for y in walk(n) if y.get("k") == "Path" and "local" in y.get("res", {})}
-                            return ls
-                        # follow let-bound shadows: the arm rebinds src/index to their evaluated values with the same names
-                        ok = ok and "index" in origin(x["args"][0]) and "src" in origin(x["args"][1])
-                r.decide(ok, key, w, "Store must call memory.store(address from index, value from src) and touch no scalar")
-            elif v == "Load":
-                ok = "load" in cs and "set_scalar" in cs and "ExecutorInvalidAddress" in ctors and "store" not in cs
-                for x in walk(a.body):
-                    if x.get("k") == "MethodCall" and x["name"] == "load" and len(x["args"]) == 2:
-                        b = unq(x["args"][1])
-                        ok = ok and b.get("k") == "MethodCall" and b["name"] == "bits" and \
-                            names.get(unq(b["recv"]).get("res", {}).get("local")) == ("dst",)
-                r.decide(ok, key, w, "Load must read dst.bits() bits, report absence as ExecutorInvalidAddress and bind dst")
-            elif v == "Branch":
-                r.decide("Branch" in ctors and "symbolize_and_eval" in cs and "set_scalar" not in cs and "store" not in cs,
-                         key, w, "Branch must yield SuccessorType::Branch(evaluated target) and change nothing")
-            elif v == "Intrinsic":
-                r.decide("UnhandledIntrinsic" in ctors and "FallThrough" not in ctors and "set_scalar" not in cs, key, w,
-                         "an intrinsic must be reported as an error")
-            elif v == "Nop":
-                r.decide("FallThrough" in ctors and not ({"set_scalar", "store", "load"} & set(cs)), key, w,
-                         "Nop must fall through and change nothing")
+    tm = terms_of(db, EXEC, {})
+    cfg = Cfg(body)
+    vs = variants_of(db, OP)
+    rep.anchor(vs is not None and len(vs) == 6, "il::Operation has six variants")
+    vnames = [last_seg(v) for v, _ in vs]
+    fidx = {last_seg(v): {f["name"]: i for i, f in enumerate(info["fields"])} for v, info in vs}
+    # the dispatch: a switch on the discriminant of the operation parameter
+    sw = None
+    for i, bb in enumerate(body["blocks"]):
+        t = bb["t"]
+        if t["k"] == "SwitchInt":
+            d = tm.operand(t["discr"])
+            if d[0] == "discr" and d[1] == ("param", 2):
+                sw = (i, t)
+                break
+    rep.anchor(sw is not None, "switch on the Operation discriminant in execute")
+    tgt = {}
+    for val, bb in sw[1]["targets"]:
+        if isinstance(val, int) and val < len(vnames):
+            tgt[vnames[val]] = bb
+    rest = [v for v in vnames if v not in tgt]
+    if len(rest) == 1 and sw[1].get("otherwise") is not None:
+        tgt[rest[0]] = sw[1]["otherwise"]
+    rep.anchor(len(tgt) == 6, "one switch target per Operation variant (found %d)" % len(tgt))
+
+    def fld(v, name):
+        return ("field", ("variant", ("param", 2), v), ".%d" % fidx[v][name])
+
+    def has(t, x):
+        return any(y == x for y in subterms(t))
+
+    def evaluated(t, v, name):
+        # the term contains symbolize_and_eval(_, <field>)
+        return any(c[0] == "call" and last_seg(c[1]) == "symbolize_and_eval" and any(has(a_, fld(v, name)) for a_ in c[2]) for c in calls_in(t))
+
+    def method_of(t, meth, v, name):
+        return t[0] == "call" and last_seg(t[1]) == meth and len(t[2]) >= 1 and t[2][0] == fld(v, name)
+
+    for v in vnames:
+        region = [x for x in range(len(body["blocks"])) if cfg.dominates(tgt[v], x)]
+        calls = [(last_seg(mir_callee(t) or "?"), [tm.operand(a_) for a_ in t["args"]], t) for i, t in mir_calls(body) if i in region]
+        aggs = [last_seg(s_["rv"]["variant"]) for x in region for s_ in body["blocks"][x]["s"] if "variant" in s_.get("rv", {})]
+        by = {}
+        for nm, args, t in calls:
+            by.setdefault(nm, []).append(args)
+        w = db.where(body, body["blocks"][tgt[v]]["t"].get("l") or (body["blocks"][tgt[v]]["s"] or [{}])[0].get("l"))
+        key = "execute|%s" % v
+        writes = set(by) & {"set_scalar", "store"}
+        succ = by.get("new", []) if any(last_seg(mir_callee(t) or "") == "new" and "Successor" in (mir_callee(t) or "") for _, _, t in calls) else []
+        if v == "Assign":
+            ss = by.get("set_scalar", [])
+            ok = len(ss) == 1 and method_of(ss[0][1], "name", v, "dst") and evaluated(ss[0][2], v, "src") and \
+                not has(ss[0][2], fld(v, "dst")) and writes == {"set_scalar"} and "FallThrough" in aggs
+            r.decide(ok, key, w, "Assign must bind the evaluated source to dst.name() and fall through (calls %s)" % sorted(by))
+        elif v == "Store":
+            st = by.get("store", [])
+            ok = len(st) == 1 and len(st[0]) == 3 and evaluated(st[0][1], v, "index") and not has(st[0][1], fld(v, "src")) and \
+                evaluated(st[0][2], v, "src") and not has(st[0][2], fld(v, "index")) and writes == {"store"} and "FallThrough" in aggs
+            r.decide(ok, key, w, "Store must call memory.store(address from index, value from src) and touch no scalar")
+        elif v == "Load":
+            ld, ss = by.get("load", []), by.get("set_scalar", [])
+            ok = len(ld) == 1 and len(ld[0]) == 3 and evaluated(ld[0][1], v, "index") and method_of(ld[0][2], "bits", v, "dst") and \
+                len(ss) == 1 and method_of(ss[0][1], "name", v, "dst") and \
+                any(c[0] == "call" and last_seg(c[1]) == "load" for c in calls_in(ss[0][2])) and \
+                any(isinstance(y, tuple) and y and y[0] == "variant" and y[2] == "Some" for y in subterms(ss[0][2])) and \
+                writes == {"set_scalar"} and "ExecutorInvalidAddress" in aggs and "FallThrough" in aggs
+            r.decide(ok, key, w, "Load must read dst.bits() bits at the evaluated index, report absence as ExecutorInvalidAddress and bind dst to the loaded value")
+        elif v == "Branch":
+            ok = "Branch" in aggs and not writes and any(evaluated(a_, v, "target") and any(
+                isinstance(y, tuple) and y and y[0] == "agg" and last_seg(y[1]) == "Branch" for y in subterms(a_)) for args in succ for a_ in args)
+            r.decide(ok, key, w, "Branch must yield SuccessorType::Branch(evaluated target) and change nothing")
+        elif v == "Intrinsic":
+            r.decide("UnhandledIntrinsic" in aggs and "Err" in aggs and not succ and not writes, key, w, "an intrinsic must be reported as an error")
+        elif v == "Nop":
+            r.decide("FallThrough" in aggs and bool(succ) and not writes and "load" not in by, key, w, "Nop must fall through and change nothing")
     r.floor(6, "six Operation variants")
 
 
@@ -133,21 +161,43 @@ def r2(db, rep):
                 rets = any(x.get("k") == "Ret" for x in walk(a.body))
                 r.decide("ExecutorScalar" in ctors and "Err" in ctors and rets, "eval|Scalar", db.where(hb, a.line),
                          "an undefined scalar must be reported as ExecutorScalar")
-    sb = db.hir["executor::state::State::symbolize_expression"]
-    m = main_match(sb, "il::expression::Expression")
-    for a in arm_table(m):
-        for v in a.variants:
-            if last_seg(v) == "Scalar":
-                inner = [x for x in walk(a.body) if x.get("k") == "Match" and x.get("src") == "Normal"]
-                ok = False
-                for mm in inner:
-                    from armlib import select_arm
-                    i_none = select_arm(mm, ("None",))
-                    if i_none is not None:
-                        b = unq(mm["arms"][i_none]["body"])
-                        ok = b.get("k") == "Call" and last_seg(b.get("fn", {}).get("ctor_of", "") or "") == "Scalar"
-                r.decide(ok, "symbolize|Scalar", db.where(sb, a.line),
-                         "a scalar without value must stay a scalar (no default value invented)")
+    SYM = "executor::state::State::symbolize_expression"
+    sbody = db.mir[SYM]
+    stm = terms_of(db, SYM, {})
+    scfg = Cfg(sbody)
+    from armlib import variants_of
+    evs = [last_seg(v) for v, _ in variants_of(db, "il::expression::Expression")]
+    sw = None
+    for i, bb in enumerate(sbody["blocks"]):
+        t = bb["t"]
+        if t["k"] == "SwitchInt":
+            d = stm.operand(t["discr"])
+            if d[0] == "discr" and d[1] == ("param", 2):
+                sw = t
+                break
+    rep.anchor(sw is not None and "Scalar" in evs, "switch on the Expression discriminant in symbolize_expression")
+    tg = [bb for val, bb in sw["targets"] if val == evs.index("Scalar")]
+    rep.anchor(len(tg) == 1, "Scalar arm of symbolize_expression")
+    region = [x for x in range(len(sbody["blocks"])) if scfg.dominates(tg[0], x)]
+    ok = False
+    found = False
+    for x in region:
+        t = sbody["blocks"][x]["t"]
+        if t["k"] != "SwitchInt":
+            continue
+        d = stm.operand(t["discr"])
+        if d[0] != "discr" or not calls_in(d):
+            continue
+        # the lookup of the scalar's value: discriminant 0 is None
+        found = True
+        none_bb = dict((v_, b_) for v_, b_ in t["targets"]).get(0, t.get("otherwise"))
+        nreg = [y for y in region if scfg.dominates(none_bb, y)]
+        aggs = [last_seg(s_["rv"]["variant"]) for y in nreg for s_ in sbody["blocks"][y]["s"] if "variant" in s_.get("rv", {})]
+        made = [last_seg(mir_callee(t_) or "") for i_, t_ in mir_calls(sbody) if i_ in nreg]
+        ok = "Scalar" in aggs and "Constant" not in aggs and not ({"expr_const", "new", "new_big", "into", "from"} & set(made))
+    rep.anchor(found, "lookup of the scalar's value in symbolize_expression")
+    r.decide(ok, "symbolize|Scalar", db.where(sbody, sbody["blocks"][tg[0]]["t"].get("l")),
+             "a scalar without value must stay a scalar (no default value invented)")
     eb = db.hir[EXEC]
     n = sum(1 for x in walk(eb["body"]) if x.get("k") == "Path" and last_seg(x["res"].get("ctor_of", "") or "") == "TooManyAddressBits")
     r.decide(n >= 3, "execute|address_width", db.where(eb), "store, load and branch must reject addresses that do not fit u64")
